@@ -16,7 +16,10 @@ from .seams import WORLD
 
 
 # --------------------------------------------------------------------------- builders
-def build_evaluator(spec: dict):
+def build_evaluator(spec: dict, shared: dict | None = None):
+    """`shared`: a dict in which the component objects (approximator, matcher, handler, class
+    groups, metric lists) of this specification are kept, so that several evaluators built from
+    it share the *same* component objects (as user code that builds them once does)."""
     import panoptica as P
     from panoptica.instance_matcher import MaximizeMergeMatching, NaiveThresholdMatching
     from panoptica.utils.constants import CCABackend
@@ -64,6 +67,10 @@ def build_evaluator(spec: dict):
     for k in ("save_group_times", "log_times", "verbose"):
         if spec.get(k):
             kw[k] = True
+    if shared is not None:
+        for k in ("instance_approximator", "instance_matcher", "edge_case_handler", "segmentation_class_groups", "instance_metrics", "global_metrics"):
+            if k in kw:
+                kw[k] = shared.setdefault(k, kw[k])
     return P.Panoptica_Evaluator(**kw)
 
 
@@ -272,10 +279,10 @@ class StubEvaluator:
 _build_real = build_evaluator
 
 
-def build_evaluator(spec: dict):  # noqa: F811 - dispatch on stub specifications
+def build_evaluator(spec: dict, shared: dict | None = None):  # noqa: F811 - dispatch on stub specifications
     if spec.get("stub") is not None:
         return StubEvaluator(spec["stub"], save_group_times=bool(spec.get("save_group_times")))
-    return _build_real(spec)
+    return _build_real(spec, shared)
 
 
 def spec_variant(spec: dict, variant):
